@@ -96,19 +96,25 @@ fn alpha_meas(q: usize) -> Vec<Gate> {
     a
 }
 
-pub fn judge_meas_circuit<G: GraphLike>(st: &mut Stats, c: &Circuit, explicit_vars: bool, backend: &'static str) {
+pub fn judge_meas_circuit<G: GraphLike>(st: &mut Stats, c: &Circuit, explicit_mode: u8, backend: &'static str) {
     let nm = c.gates.iter().filter(|g| g.t == Measure || g.t == MeasureReset).count();
-    if nm == 0 || nm > 4 {
+    if nm == 0 || nm > 3 {
         return;
     }
-    // explicit outcome variables: the k-th measurement is told to use variable (nm - 1 - k), i.e. reversed numbering
-    let c = if explicit_vars {
+    let explicit_vars = explicit_mode != 0;
+    // mode 1: the k-th measurement is told to use variable (nm - 1 - k), i.e. reversed numbering;
+    // mode 2: only every other measurement is named (variable 1, then 0), the others get fresh variables
+    let c = if explicit_mode != 0 {
         let mut d = Circuit::new(c.num_qubits());
         let mut k = 0;
         for g in &c.gates {
             let mut g = g.clone();
             if g.t == Measure || g.t == MeasureReset {
-                g.vars = Parity::single((nm - 1 - k) as u32);
+                if explicit_mode == 1 {
+                    g.vars = Parity::single((nm - 1 - k) as u32);
+                } else if k % 2 == 0 {
+                    g.vars = Parity::single(if k == 0 { 1 } else { 0 });
+                }
                 k += 1;
             }
             d.push(g);
@@ -117,10 +123,26 @@ pub fn judge_meas_circuit<G: GraphLike>(st: &mut Stats, c: &Circuit, explicit_va
     } else {
         c.clone()
     };
+    // documented numbering: unnamed measurements get fresh variables from (largest named + 1) upwards, in circuit order
+    let named_max: Option<u32> = c.gates.iter().filter_map(|g| g.vars.iter().max()).max();
+    let mut fresh = named_max.map_or(0, |m| m + 1) as usize;
+    let mvars: Vec<usize> = c
+        .gates
+        .iter()
+        .filter(|g| g.t == Measure || g.t == MeasureReset)
+        .map(|g| match g.vars.iter().next() {
+            Some(v) => v as usize,
+            None => {
+                fresh += 1;
+                fresh - 1
+            }
+        })
+        .collect();
+    let nvars_total = mvars.iter().max().map_or(0, |m| m + 1);
     st.inc("cases");
     for (simp, mname) in [(false, "plain"), (true, "simplify")] {
         st.inc("evaluations");
-        let wit = || json!({"kind": "circuit", "circuit": circuit_json(&c), "mode": mname, "backend": backend, "explicit_vars": explicit_vars});
+        let wit = || json!({"kind": "circuit", "circuit": circuit_json(&c), "mode": mname, "backend": backend, "explicit_mode": explicit_mode});
         let g = match guarded(|| c.to_graph_with_options::<G>(simp, false)) {
             Err(p) => {
                 st.violation(Violation { sig: format!("to_graph|{}|panic|{}", mname, p.rsplit(" @ ").next().unwrap_or("")), detail: p, witness: wit() });
@@ -130,9 +152,8 @@ pub fn judge_meas_circuit<G: GraphLike>(st: &mut Stats, c: &Circuit, explicit_va
         };
         let mut ok = true;
         let mut in_domain = false;
-        for a in 0..(1u32 << nm) {
+        for a in 0..(1u32 << nvars_total) {
             // outcome of the k-th measurement = value of its variable
-            let mvars: Vec<usize> = c.gates.iter().filter(|g| g.t == Measure || g.t == MeasureReset).enumerate().map(|(k, g)| g.vars.iter().next().map(|v| v as usize).unwrap_or(k)).collect();
             let outcomes: Vec<u8> = (0..nm).map(|k| ((a >> mvars[k]) & 1) as u8).collect();
             let Some(rc) = to_rcircuit(&c, &outcomes) else { break };
             let (want, ni, no) = sim_circuit(&rc);
@@ -206,6 +227,46 @@ pub fn run(rep: &mut Report) {
         });
         rep.absorb("targeted with variables", "stars, double stars and gadget groups with parities on the acted-on vertices: rules and simplifiers", true, None, t0, stats);
     }
+    // gadget groups with parities on every leaf (group fusion must carry all of them)
+    {
+        let t0 = Instant::now();
+        let mut fam: Vec<DiagSpec> = vec![];
+        for m in 1..=2usize {
+            for kk in 2..=4usize {
+                let nmask = 4usize.pow(kk as u32);
+                for mi in 0..nmask {
+                    let mut d = DiagSpec::empty();
+                    let ns: Vec<u8> = (0..m).map(|i| d.add(1, [(1, 4), (1, 2)][i % 2])).collect();
+                    let mut mm = mi;
+                    for j in 0..kk {
+                        let h = d.add(1, (0, 1));
+                        let l = d.add(1, [(1, 4), (3, 4), (1, 2), (-1, 4)][j % 4]);
+                        d.verts[l as usize].vars = [0u8, 1, 2, 4][mm % 4];
+                        mm /= 4;
+                        d.edges.push((h, l, true));
+                        for &x in &ns {
+                            d.edges.push((h, x, true));
+                        }
+                    }
+                    for &x in &ns {
+                        let b = d.add(0, (0, 1));
+                        d.edges.push((x, b, false));
+                        d.outputs.push(b);
+                    }
+                    fam.push(d);
+                }
+            }
+        }
+        let stats = sweep(&fam, |st, i, spec| {
+            watch_begin(i as u64, 4);
+            st.inc("cases");
+            simps_on::<quizx::vec_graph::Graph>(st, spec, "vec", None);
+            simps_on::<quizx::hash_graph::Graph>(st, spec, "hash", None);
+            rules_on_both(st, spec);
+            watch_end();
+        });
+        rep.absorb("gadget groups with leaf variables", "k = 2..4 phase gadgets on a shared support, every assignment of parities {0, b0, b1, b2} to the leaves: simplifiers and rules under all assignments", true, None, t0, stats);
+    }
     // (b) simplifiers
     for (name, s, b, phis, masks) in &fams {
         let t0 = Instant::now();
@@ -232,13 +293,13 @@ pub fn run(rep: &mut Report) {
         let stats = sweep_range(n, |st, idx| {
             watch_begin(idx, 3);
             let c = circuit_at(q, &alpha, d, idx);
-            for ev in [false, true] {
+            for ev in 0..3u8 {
                 judge_meas_circuit::<quizx::vec_graph::Graph>(st, &c, ev, "vec");
                 judge_meas_circuit::<quizx::hash_graph::Graph>(st, &c, ev, "hash");
             }
             watch_end();
         });
-        rep.absorb(&format!("measurement circuits K({},{},A_meas)", q, d), "every gate sequence with measure / measure-reset gates (fresh and explicit outcome variables), plain and simplify modes: for every outcome assignment the instantiated diagram vs the circuit projected on that outcome", true, None, t0, stats);
+        rep.absorb(&format!("measurement circuits K({},{},A_meas)", q, d), "every gate sequence with measure / measure-reset gates (fresh, explicit and mixed outcome variables), plain and simplify modes: for every outcome assignment the instantiated diagram vs the circuit projected on that outcome", true, None, t0, stats);
     }
 }
 
@@ -261,8 +322,8 @@ pub fn replay(w: &Value) -> Option<Violation> {
         _ => {
             // the recorded circuit already carries its explicit variables
             let c = circuit_from_json(&w["circuit"])?;
-            judge_meas_circuit::<quizx::vec_graph::Graph>(&mut st, &c, false, "vec");
-            judge_meas_circuit::<quizx::hash_graph::Graph>(&mut st, &c, false, "hash");
+            judge_meas_circuit::<quizx::vec_graph::Graph>(&mut st, &c, 0, "vec");
+            judge_meas_circuit::<quizx::hash_graph::Graph>(&mut st, &c, 0, "hash");
         }
     }
     st.viols.into_values().next().map(|(_, v)| v)
